@@ -10,8 +10,10 @@ bimaps); the differences of G (Matsubara points and complex off-axis points), <c
 two-particle Green's function between the two runs are compared with the bounds; eps = 0 must reproduce every record
 bit for bit.  The norm hypotheses of gf_truncation_bound (row / column sums of |c|^2 <= 1) are checked on the dumped
 operator matrices.
-Bounds not machine-checked (derived in the comment at the end of Properties_C19.v): susceptibility beta eps dim,
-two-particle Green's function 0.5 dim^2 beta^3 eps on fermionic Matsubara frequencies.
+Bounds: all machine-checked (Properties_C19.v): susceptibility beta eps F (susc_spec_truncation_bound*), two-particle
+Green's function 6 F^2 beta^3 (4/pi^3 + 2/pi^2) eps on fermionic Matsubara frequencies (tpgf_truncation_bound; F = measured
+Frobenius norm^2 of the operator matrices, >= dim/2).  Histories of several truncateBlocks calls on one DensityMatrix are
+judged like a single call with the last tolerance.
 """
 import math
 import concurrent.futures as cf
